@@ -315,13 +315,14 @@ func c19Build(seed uint64, cell c19Cell) *c19Case {
 		}
 	}
 	c.docs = all
+	var ctlIdx []int
 	for k, d := range all {
 		if d.Text == injected.Text && d.Name == injected.Name {
 			c.keepIdx = append(c.keepIdx, k)
 		} else if !strings.HasPrefix(d.Name, "cfl-twin-") {
 			// (the pods of a same-named controller of another kind stay out of the control: this tree matches owners by
 			// name alone and takes them for a conflict of their own, which the cell's verdict does not depend on)
-			c.ctl = append(c.ctl, d)
+			ctlIdx = append(ctlIdx, k)
 		}
 	}
 	// conflict partners must survive minimisation too
@@ -349,6 +350,14 @@ func c19Build(seed uint64, cell c19Cell) *c19Case {
 		}
 	}
 	sort.Ints(c.keepIdx)
+	if r.chance(1, 4) {
+		// the directory is a dump of a live cluster: every document carries a uid, a resourceVersion, a generation
+		// and a creation time of its own (two documents of one name are then an older and a newer revision)
+		c.docs = exported(r, c.docs)
+	}
+	for _, k := range ctlIdx {
+		c.ctl = append(c.ctl, c.docs[k])
+	}
 	// layout: delivery order must be preserved, the partition into files is free
 	c.lay = orderedLayout(r, len(all))
 	return c
